@@ -7,6 +7,7 @@ CONSTANTS
   Acts = {"Alloc", "Unroot", "Spawn", "Collect", "Push", "Pop", "RootTop"}
   TwoVMs = FALSE
   Emit = FALSE
+  Traps = {}
   Mutant = "none"
 VIEW View
 INVARIANTS TypeOK Isolation NoDangling
